@@ -120,6 +120,12 @@ def enc_element(kind, shape, v):
             assume(0 <= v[0] < 256)
             rule = bytes([shape[1], 0x81, v[0]])
         return bytes([len(rule)]) + rule
+    if kind == 'fs-component':
+        # one component of a flowspec rule: (type, operand width in octets); a rule is the list of its components
+        comp, width = shape
+        assume(0 <= v[0] < 256)
+        code = {1: 0, 2: 1, 4: 2, 8: 3}[width]
+        return bytes([comp, 0x80 + code * 16 + 1]) + bytes([0] * (width - 1)) + bytes([v[0]])
     if kind == 'capability':
         if shape == 'mp':
             assume(v[0] == 1 or v[0] == 2)
@@ -181,6 +187,10 @@ def merge_caps(da, db):
 def decode(kind, shape, data):
     if kind == 'capability':
         return decode_caps(data)
+    if kind == 'fs-component':
+        from yabgp.message.attribute.nlri.ipv4_flowspec import IPv4FlowSpec
+        d = IPv4FlowSpec.parse(data)
+        return sorted(d.items())
     if kind == 'prefix4':
         from yabgp.message.update import Update
         return Update.parse_prefix_list(data)
@@ -293,6 +303,15 @@ def obligations(tier, seed):
                                                        [0, 1, 7, 8, 9, 15, 16, 17, 32, 48, 59, 60, 61, 63, 64, 65, 96, 120, 127, 128])
                     for ad in ('20010db8000100020003000400050006',)],
     }
+    # components inside one flowspec rule (types strictly increasing, every operand width incl. the 8 octets the agent
+    # itself never emits)
+    comps = [(3, 1), (5, 8), (6, 2), (7, 8), (10, 4), (11, 1)]
+    for i, x in enumerate(comps):
+        for y in comps[i + 1:]:
+            if quick and (x[1] != 8 and y[1] != 8) and (i % 2):
+                continue
+            out.append(ob('C15/concat/fs-component/%s+%s' % (x, y), 'ob_concat', {'kind': 'fs-component', 'a': list(x), 'b': list(y)},
+                          covers=['decoded'], cap=150 if quick else 500))
     for kind, pool in pools.items():
         full = not quick and len(pool) <= 40
         prs = pairs(pool, not full, seed)
@@ -337,6 +356,11 @@ def obligations(tier, seed):
             for pm in itertools.permutations(g):
                 out.append(ob('C15/attr-order/pro=%d/%s' % (pro, '-'.join(pm)), 'ob_attr_order_x',
                               {'attrs': list(pm), 'base': g, 'pro': pro}, covers=['decoded'], cap=500))
+    for asn4 in (False, True):
+        g = ['nexthop', 'med', 'as4_path'] if asn4 else ['as4_path', 'aspath', 'med']
+        for pm in itertools.permutations(g):
+            out.append(ob('C15/attr-order/asn4=%s/%s' % (asn4, '-'.join(pm)), 'ob_attr_order', {'attrs': list(pm), 'base': g, 'asn4': asn4},
+                          covers=['decoded'], cap=150 if quick else 500))
     g = ['mp-evpn', 'ext-encap', 'pmsi']
     for pm in itertools.permutations(g):
         out.append(ob('C15/attr-order/%s' % '-'.join(pm), 'ob_attr_order_x', {'attrs': list(pm), 'base': g},
@@ -409,11 +433,11 @@ def ob_attr_order(a: int, b: int, c: int, d: int, e: int) -> bool:
     enc = {}
     for i, name in enumerate(P['base']):
         vv = v[i:] + v[:i]
-        code, data, _chk = C09.build_attr(name, vv, False, False)
+        code, data, _chk = C09.build_attr(name, vv, P.get('asn4', False), False)
         enc[name] = (code, data)
     base_blob = b''.join(enc[n][1] for n in P['base'])
     perm_blob = b''.join(enc[n][1] for n in P['attrs'])
-    o1 = Update.parse(None, E.update_body(b'', base_blob, b''), False, {})
-    o2 = Update.parse(None, E.update_body(b'', perm_blob, b''), False, {})
+    o1 = Update.parse(None, E.update_body(b'', base_blob, b''), P.get('asn4', False), {})
+    o2 = Update.parse(None, E.update_body(b'', perm_blob, b''), P.get('asn4', False), {})
     cover('decoded')
     return o1['sub_error'] is None and o2['sub_error'] is None and same(o1['attr'], o2['attr'])
